@@ -580,6 +580,8 @@ class Body:
                 rv = d[3]['rv']
                 if rv['k'] == 'use' and rv['op']['k'] in ('move', 'copy') and not rv['op']['place']['proj']:
                     src = rv['op']['place']['local']
+                    if src < self.raw.get('inline_local_base', 10 ** 9):
+                        return [(t, d)]
                     alts = self.terms_at(src, (d[1], d[2]))
                     if len(alts) > 1 and all(d2 is not None and d2[4] for t2, d2 in alts):
                         res = []
